@@ -6,7 +6,7 @@
 From Coq Require Import NArith List Bool.
 From LV Require Import lib.Bytes lib.Lex lib.SortedMap spec.KvSpec spec.KvOps spec.KvStackSpec
   model.PrefixRange model.Table model.Flushable model.KvStack
-  proofs.FlushableIter proofs.KvStackReads proofs.KvStackWrites proofs.KvStackViews proofs.KvStackRefine proofs.KvExamples proofs.KvLive.
+  proofs.FlushableIter proofs.KvStackReads proofs.KvStackWrites proofs.KvStackViews proofs.KvStackRefine proofs.KvExamples proofs.KvLive model.FlushableHeap proofs.FlushableHeapProofs.
 Import ListNotations.
 Local Open Scope N_scope.
 
@@ -74,6 +74,35 @@ Theorem C22_not_flushed_pairs : forall (o : tree) log, sm_sorted o -> (forall k,
   flu_size o = kv_log_keys log.
 Proof. exact nfp_is_distinct_keys. Qed.
 
+(* Snapshots, mechanism: over the MUTABLE-object model (tree objects mutated in place by
+   Put/Delete/Clear, engine with live content and immutable snapshots) the object built by
+   GetSnapshot as coded — a copy of the tree in a NEW object + the parent's SNAPSHOT — reads, after
+   any later puts, deletes, flushes, drops, direct parent writes and further snapshots, exactly what
+   the store read when it was taken; and that is what the run model's snapshot value reads.
+   (Sharing the tree object or reading through the live parent is refuted in
+   proofs/FlushableHeapProofs.v: snapshot_shared_tree_refuted, snapshot_live_parent_refuted.) *)
+Theorem C22_snapshot_immutable : forall t H ops, (t < length (h_trees H))%nat ->
+  let '(H1, sn) := get_snapshot t H in
+  forall k p s,
+    snap_get (hrun t H1 ops) sn k = store_get t H k /\
+    snap_iter (hrun t H1 ops) sn p s = store_iter t H p s.
+Proof. exact snapshot_is_immutable. Qed.
+Theorem C22_snapshot_matches_run_model : forall e t H ops k, (t < length (h_trees H))%nat ->
+  snap_get (hrun t (fst (get_snapshot t H)) ops) (snd (get_snapshot t H)) k = st_get (heap_abs e t H) k.
+Proof. exact snapshot_matches_run_model. Qed.
+Theorem C22_heap_model_is_run_model : forall e ideal t H o, (t < length (h_trees H))%nat ->
+  heap_abs e t (hstep t H o) =
+  match o with
+  | HPut k v => st_put (heap_abs e t H) k v
+  | HDel k => st_del (heap_abs e t H) k
+  | HFlush => st_flush ideal (heap_abs e t H)
+  | HDrop => st_drop (heap_abs e t H)
+  | HParentPut k v => st_upd 1 (fun u => st_put u k v) (heap_abs e t H)
+  | HParentDel k => st_upd 1 (fun u => st_del u k) (heap_abs e t H)
+  | HSnapshot => heap_abs e t H
+  end.
+Proof. exact heap_abs_step. Qed.
+
 (* all reachable states, snapshots included: for every op sequence (puts, deletes, batches, reads,
    iterations, flushes, drops, NotFlushedPairs, snapshots and later reads of them, at every level of
    every stack) the model run equals the specification run, in which a flushable is its parent's
@@ -92,6 +121,12 @@ Example C22_ex_state :
   st_iter (Flu o u) (Some [255]) None = [([255], [3]); ([255; 255], [])] /\
   st_get (Flu o u) [0] = None /\ st_nfp (Flu o u) = Some 3%nat.
 Proof. vm_compute. repeat split; repeat constructor. Qed.
+Example C22_ex_heap :
+  let H := {| h_trees := [[([97], Some [1])]]; h_cur := [([98], [2])]; h_snaps := [] |} in
+  snap_get (hrun 0 (fst (get_snapshot 0 H)) [HPut [98] [3]; HFlush; HDel [97]; HDrop; HParentDel [98]])
+           (snd (get_snapshot 0 H)) [98] = Some [2] /\
+  store_get 0 (hrun 0 (fst (get_snapshot 0 H)) [HPut [98] [3]; HFlush; HDel [97]; HDrop; HParentDel [98]]) [98] = None.
+Proof. split; vm_compute; reflexivity. Qed.
 Example C22_ex_quiet : quiet true 0 (OFlush 0) /\ quiet true 0 (ODrop 0) /\ quiet true 0 (OSnap h0) /\
   ~ quiet true 0 (OPut h0 [] []) /\ ~ quiet false 0 (OFlush 0).
 Proof. exact quiet_flush_drop. Qed.
@@ -115,4 +150,7 @@ Print Assumptions C22_lazy_before_flush.
 Print Assumptions C22_lazy_flush.
 Print Assumptions C22_drop.
 Print Assumptions C22_not_flushed_pairs.
+Print Assumptions C22_snapshot_immutable.
+Print Assumptions C22_snapshot_matches_run_model.
+Print Assumptions C22_heap_model_is_run_model.
 Print Assumptions C22_histories.
